@@ -65,6 +65,8 @@ func init() {
 			ruleTightGuards(c, B, nil)
 			c.Floor("X.tightguard", 20)
 			ruleFullScan(c)
+			ruleLookupStateless(c, []string{"plenccodec.StructCodec.Read", "plenccodec.Descriptor.readAsStruct"})
+			ruleStructUntouched(c)
 			ruleFieldNameUse(c)
 			ruleAnyOrder(c, B)
 			ruleWireConsts(c)
